@@ -1,12 +1,38 @@
 (* C13 - the shipped API layer is a faithful translation of the shipped TL schema.
-   Generic statements about the matcher; it is evaluated on today's registry and schema text in
-   Inst/C13i.v.  (Declarative reading of the matcher: TL/MatchProofs.v, added when it lands.) *)
+   Statements only: the declarative reading of the decidable matcher TL/Match.v (proofs in
+   TL/MatchProofs.v).  The matcher is evaluated by the kernel on today's registry and schema
+   text in Inst/C13i.v. *)
 From Coq Require Import NArith List.
-From MTV Require Import Base.Bytes Base.Outcome Base.Str Prim.Crc32 TL.Types TL.Codec TL.Typing TL.TLText TL.Match.
+From MTV Require Import Base.Bytes Base.Outcome Base.Str Prim.Crc32 TL.Types TL.Codec TL.Typing TL.TLText
+  TL.Match TL.MatchProofs.
 Import ListNotations.
 Open Scope N_scope.
 
-(* CRC-32 known answer (the function the ids are compared with) *)
+(* "fields match the schema's parameters in order, type, conditional-flag bit and position of
+   the flags word": what the boolean descriptor check means *)
+Theorem C13_layout_reading : forall U tbl ps fds want,
+  desc_agrees U tbl ps fds 0 None want = true <->
+  Forall2 (field_rel U tbl) (filter (fun p => negb (is_nat p)) ps) fds /\ flags_position ps want.
+Proof. exact desc_agrees_iff. Qed.
+Print Assumptions C13_layout_reading.
+
+(* "represented by exactly one registered Go type whose constructor id equals the id written in
+   the schema": what a matching definition means (struct, or member of an enum type) *)
+Theorem C13_definition_reading : forall U tbl c, def_matches U tbl c = true ->
+  (exists tid sd, lookup_reg U (c_id c) = Some (RStruct tid) /\ get_struct U tid = Some sd /\
+     s_crc sd = Some (c_id c) /\ desc_agrees U tbl (c_params c) (s_fields sd) 0 None (s_flagidx sd) = true) \/
+  (exists e, lookup_reg U (c_id c) = Some (REnum e) /\ c_params c = [] /\ c_isfun c = false /\
+     lookup_kind tbl (c_result c) = KEnum e).
+Proof. exact def_matches_struct. Qed.
+Print Assumptions C13_definition_reading.
+
+(* an empty mismatch list = every (non-excluded) definition of the schema matches *)
+Theorem C13_no_mismatch_reading : forall U S excluded, mismatches U S excluded = [] <->
+  forall c, In c S -> list_contains excluded (c_name c) = false -> def_matches U (kind_table U S) c = true.
+Proof. exact mismatches_nil_iff. Qed.
+Print Assumptions C13_no_mismatch_reading.
+
+(* the CRC-32 the ids are compared with is the IEEE one (known answer) *)
 Theorem C13_crc32_check : crc32 [49; 50; 51; 52; 53; 54; 55; 56; 57] = 3421780262.
 Proof. exact crc32_check. Qed.
 Print Assumptions C13_crc32_check.
